@@ -17,6 +17,7 @@ fn base(profile: &str, seed: u64, monitors: &[&str]) -> Params {
         knobs: BTreeMap::new(),
         monitors: monitors.iter().map(|s| s.to_string()).collect(),
         targeted: vec![],
+        relabel: None,
     }
 }
 
@@ -401,6 +402,360 @@ fn amplification(seed: u64, index: u64, ex: &mut Extras) -> Params {
 pub fn make(profile: &str, seed: u64, index: u64) -> (Params, Extras) {
     let mut ex = Extras::default();
     let p = match profile {
+        "C10" => {
+            let mut p = gen_general(
+                "C10",
+                seed,
+                &["C10"],
+                GenOpts {
+                    max_clients: 2,
+                    max_streams: 4,
+                    max_len: 1_000_000,
+                    tiny_windows: 0,
+                    hostile_app: false,
+                    net_intensity: (0, 2),
+                    server_streams: true,
+                    rtts: 300,
+                },
+            );
+            // big flow-control windows so that the congestion window is the limiting factor
+            let mut r = Rng::new(seed ^ 0xc10);
+            p.server.data_window = 1_500_000;
+            p.server.bidi_local_window = 1_500_000;
+            p.server.bidi_remote_window = 1_500_000;
+            p.server.uni_window = 1_500_000;
+            p.server.max_send_buffer = 512 * 1024;
+            for c in p.clients.iter_mut() {
+                c.cfg.data_window = 1_500_000;
+                c.cfg.bidi_local_window = 1_500_000;
+                c.cfg.bidi_remote_window = 1_500_000;
+                c.cfg.uni_window = 1_500_000;
+                c.cfg.max_send_buffer = 512 * 1024;
+                if let Some(s) = c.streams.first_mut() {
+                    s.fwd.len = s.fwd.len.max(r.range(100_000, 800_000));
+                    s.fwd.chunk_lo = 8000;
+                    s.fwd.chunk_hi = 70_000;
+                    s.fwd.gap_every = 0;
+                    s.fwd.flush = false;
+                    s.fwd.end = End::Finish;
+                    s.fwd.read = ReadMode::Plain;
+                }
+            }
+            p
+        }
+        "C13" => {
+            let mut r = Rng::new(seed ^ 0xc13);
+            let long = index % 2 == 0;
+            let mut p = gen_general(
+                "C13",
+                seed,
+                &["C13"],
+                GenOpts {
+                    max_clients: 3,
+                    max_streams: 6,
+                    max_len: 60_000,
+                    tiny_windows: 0,
+                    hostile_app: false,
+                    net_intensity: (0, 1),
+                    server_streams: true,
+                    rtts: 100,
+                },
+            );
+            p.retry = r.chance(1, 6);
+            let n = p.clients.len() as u64;
+            let tune = |c: &mut EpCfg, r: &mut Rng| {
+                c.max_active_cids = r.range(2, 8);
+                c.cid_rotate_handshake = r.chance(1, 2);
+                c.cid_len = 16;
+                if long {
+                    // ids expire (the provider's minimum lifetime is 60 s)
+                    c.cid_lifetime_ms = r.range(60_000, 100_000);
+                    c.keep_alive = true;
+                    c.idle_timeout_ms = 30_000;
+                }
+            };
+            tune(&mut p.server, &mut r);
+            for c in p.clients.iter_mut() {
+                tune(&mut c.cfg, &mut r);
+                c.close_code = Some(0);
+                c.abort_at_us = None;
+                if long {
+                    for s in c.streams.iter_mut().chain(c.server_streams.iter_mut()) {
+                        s.open_delay_us = r.range(0, 220_000_000);
+                    }
+                }
+            }
+            // the client's address changes (NAT rebinding / migration), forcing new ids into use
+            for _ in 0..r.range(0, 4) {
+                let t = r.range(1_000_000, if long { 200_000_000 } else { 4_000_000 });
+                p.net.rebinds.push((t, r.below(n) as usize));
+            }
+            p.net.rebinds.sort();
+            use crate::world::{tag, Targeted};
+            for _ in 0..r.range(0, 2) {
+                p.targeted.push(Targeted {
+                    from: None,
+                    tags: *r.pick(&[tag::NEW_CID, tag::RETIRE_CID, tag::NEW_CID | tag::RETIRE_CID]),
+                    skip: r.range(0, 3) as u32,
+                    drop: r.range(1, 3) as u32,
+                });
+            }
+            p.t_max_us = 500_000_000;
+            p
+        }
+        "C04" => {
+            use crate::mon::c04::{self, Attack, ALL_ATTACKS};
+            let mut r = Rng::new(seed ^ 0xc04);
+            let kinds = ALL_ATTACKS.len() as u64 + 3;
+            let k = index % kinds;
+            let honest = k >= ALL_ATTACKS.len() as u64;
+            let mut p = gen_general(
+                "C04",
+                seed,
+                &["C04", "C01"],
+                GenOpts {
+                    max_clients: 1,
+                    max_streams: 4,
+                    max_len: if honest { 300_000 } else { 60_000 },
+                    tiny_windows: if honest { 2 } else { 0 },
+                    hostile_app: honest,
+                    net_intensity: if honest { (0, 2) } else { (0, 0) },
+                    server_streams: true,
+                    rtts: 100,
+                },
+            );
+            p.retry = false;
+            p.net.mtu = 9200;
+            p.clients[0].abort_at_us = None;
+            if !honest {
+                let attack = ALL_ATTACKS[k as usize];
+                let mut attacker_is_client = (index / kinds) % 2 == 0;
+                if attack.client_only() {
+                    attacker_is_client = true;
+                }
+                // the victim's limits: comfortable at connection level so that the attack hits
+                // exactly the rule it targets
+                let bidi_remote = *r.pick(&[100u64, 1000, 4096, 16_385, 65_536]);
+                let max_remote_bidi = *r.pick(&[4u64, 8, 20, 100]);
+                {
+                    let v = if attacker_is_client { &mut p.server } else { &mut p.clients[0].cfg };
+                    v.data_window = 1_500_000;
+                    v.bidi_remote_window = bidi_remote;
+                    v.bidi_local_window = 65_536;
+                    v.uni_window = 65_536;
+                    v.max_open_remote_bidi = max_remote_bidi;
+                    v.max_open_remote_uni = 10;
+                }
+                {
+                    let a = if attacker_is_client { &mut p.clients[0].cfg } else { &mut p.server };
+                    a.data_window = 1_500_000;
+                    a.bidi_remote_window = 65_536;
+                    a.bidi_local_window = 65_536;
+                    a.uni_window = 65_536;
+                    a.max_open_remote_bidi = 100;
+                    a.max_open_remote_uni = 100;
+                }
+                // keep the honest workload small enough for the victim's limits, and long
+                // enough for the attack to land while it runs
+                let (mine, theirs) = {
+                    let c = &mut p.clients[0];
+                    if attacker_is_client {
+                        (&mut c.streams, &mut c.server_streams)
+                    } else {
+                        (&mut c.server_streams, &mut c.streams)
+                    }
+                };
+                mine.truncate(2);
+                theirs.truncate(2);
+                if mine.is_empty() {
+                    let mut s = gen_stream(&mut r, !attacker_is_client, 40_000, false);
+                    s.bidi = true;
+                    s.rev = Some(gen_flow(&mut r, 20_000, false));
+                    mine.push(s);
+                }
+                for s in mine.iter_mut().chain(theirs.iter_mut()) {
+                    s.open_delay_us = 0;
+                    s.fwd.len = s.fwd.len.clamp(2_000, 40_000);
+                    s.fwd.gap_every = 3;
+                    s.fwd.gap_us = 5_000;
+                    s.fwd.chunk_lo = 500;
+                    s.fwd.chunk_hi = 1500;
+                    s.fwd.flush = false;
+                    s.fwd.end = End::Finish;
+                    s.fwd.read = ReadMode::Plain;
+                    if let Some(rv) = s.rev.as_mut() {
+                        rv.len = rv.len.min(20_000);
+                        rv.end = End::Finish;
+                        rv.read = ReadMode::Plain;
+                        rv.flush = false;
+                    }
+                }
+                let honest_bidi = mine.iter().filter(|s| s.bidi).count() as u64;
+                let honest_uni = mine.iter().filter(|s| !s.bidi).count() as u64;
+                let view = c04::VictimView {
+                    attacker_is_client,
+                    bidi_remote_window: bidi_remote,
+                    uni_window: 65_536,
+                    data_window: 1_500_000,
+                    max_remote_bidi,
+                    max_remote_uni: 10,
+                    honest_bidi_streams: honest_bidi,
+                    honest_uni_streams: honest_uni,
+                };
+                let after = if attack.space() == crate::world::Space::App { r.range(1, 12) as u32 } else { 0 };
+                let rw = c04::rewriter(attack, view, after, seed);
+                if attacker_is_client {
+                    ex.client_rewriter = Some(rw);
+                    ex.client_unobserved = true;
+                } else {
+                    ex.server_rewriter = Some(rw);
+                    ex.server_unobserved = true;
+                }
+                p.knobs.insert("c04_attack".into(), k as i64);
+                p.knobs.insert("c04_attacker".into(), if attacker_is_client { 1 } else { 0 });
+                let _ = Attack::StreamAtStreamLimit;
+            }
+            p.clients[0].close_code = Some(0);
+            p.relabel = Some("C04".into());
+            p.t_max_us = 200_000_000;
+            p
+        }
+        "C14" => {
+            use crate::mon::c14::{self, Case, CASES};
+            let mut r = Rng::new(seed ^ 0xc14);
+            let case = CASES[(index % CASES.len() as u64) as usize];
+            let mut p = gen_general(
+                "C14",
+                seed,
+                &["C14", "C03"],
+                GenOpts {
+                    max_clients: 1,
+                    max_streams: 5,
+                    max_len: 60_000,
+                    tiny_windows: 0,
+                    hostile_app: false,
+                    net_intensity: (0, 0),
+                    server_streams: true,
+                    rtts: 100,
+                },
+            );
+            p.net.mtu = 9200;
+            p.retry = false;
+            // real configuration comfortably above anything a rewritten block declares
+            for c in std::iter::once(&mut p.server).chain(p.clients.iter_mut().map(|c| &mut c.cfg)) {
+                c.data_window = 1_500_000;
+                c.bidi_local_window = 1_000_000;
+                c.bidi_remote_window = 1_000_000;
+                c.uni_window = 1_000_000;
+                c.max_open_remote_bidi = 100;
+                c.max_open_remote_uni = 100;
+                c.max_open_local_bidi = 100;
+                c.max_open_local_uni = 100;
+                c.handshake_ms = 4_000;
+            }
+            let by_client = match case.sender() {
+                Some(b) => b,
+                None => (index / CASES.len() as u64) % 2 == 0,
+            };
+            if case == Case::TightLimits {
+                // enough streams and bytes for the declared limits to bind
+                let c = &mut p.clients[0];
+                let (mine, theirs) = if by_client {
+                    (&mut c.server_streams, &mut c.streams)
+                } else {
+                    (&mut c.streams, &mut c.server_streams)
+                };
+                // `mine` are the streams of the endpoint that RECEIVED the tight block
+                while mine.len() < 4 {
+                    let mut s = gen_stream(&mut r, by_client, 40_000, false);
+                    s.fwd.len = r.range(8_000, 40_000);
+                    s.fwd.end = End::Finish;
+                    mine.push(s);
+                }
+                let _ = theirs;
+                // the transfer is expected to stall at the declared limits (see mon/c14.rs)
+                p.server.idle_timeout_ms = 4_000;
+                p.clients[0].cfg.idle_timeout_ms = 4_000;
+                p.knobs.insert(
+                    if by_client { "tp_max_data_seen_by_server" } else { "tp_max_data_seen_by_client" }.into(),
+                    c14::TIGHT_MAX_DATA as i64,
+                );
+            }
+            p.clients[0].close_code = Some(0);
+            p.clients[0].abort_at_us = None;
+            let rw = c14::rewrite(case, seed);
+            if by_client {
+                ex.client_tp_rewrite = Some(rw);
+            } else {
+                ex.server_tp_rewrite = Some(rw);
+            }
+            p.knobs.insert("c14_case".into(), (index % CASES.len() as u64) as i64);
+            p.knobs.insert("c14_rewriter".into(), if by_client { 1 } else { 0 });
+            p.relabel = Some("C14".into());
+            p.t_max_us = 120_000_000;
+            p
+        }
+        "C15" => {
+            let mut r = Rng::new(seed ^ 0xc15);
+            let mut p = gen_general(
+                "C15",
+                seed,
+                &["C15", "C08", "C01"],
+                GenOpts {
+                    max_clients: 2,
+                    max_streams: 3,
+                    max_len: 600_000,
+                    tiny_windows: 0,
+                    hostile_app: false,
+                    net_intensity: (0, 2),
+                    server_streams: true,
+                    rtts: 300,
+                },
+            );
+            p.relabel = Some("C15".into());
+            p.retry = false;
+            // reordering stays within one PTO: no "far" delays, no corruption (every delivered
+            // genuine datagram must decrypt), loss and duplication allowed
+            for ph in p.net.phases.iter_mut() {
+                ph.far = 0.0;
+                ph.corrupt = 0.0;
+                ph.truncate = 0.0;
+            }
+            p.net.jitter_us = p.net.jitter_us.min(p.net.delay_us);
+            p.net.mtu = 9200;
+            p.net.delay_us = p.net.delay_us.max(5_000);
+            for c in p.clients.iter_mut() {
+                c.close_code = Some(0);
+                c.abort_at_us = None;
+                c.streams.truncate(2);
+                c.server_streams.truncate(1);
+                // both directions carry a few thousand packets, so that each side is due for
+                // several updates
+                if let Some(s) = c.streams.first_mut() {
+                    s.bidi = true;
+                    s.fwd.len = r.range(1_500_000, 3_000_000);
+                    s.fwd.chunk_lo = 8_000;
+                    s.fwd.chunk_hi = 60_000;
+                    s.fwd.gap_every = 0;
+                    s.fwd.flush = false;
+                    s.fwd.end = End::Finish;
+                    s.fwd.read = ReadMode::Plain;
+                    let mut rev = s.fwd.clone();
+                    rev.len = r.range(1_500_000, 3_000_000);
+                    s.rev = Some(rev);
+                }
+            }
+            // a small connection window bounds the rate to ~100 packets per round trip, which
+            // keeps consecutive key updates (every 500-1550 packets) many PTOs apart
+            for c in std::iter::once(&mut p.server).chain(p.clients.iter_mut().map(|c| &mut c.cfg)) {
+                c.data_window = 120_000;
+                c.bidi_local_window = 120_000;
+                c.bidi_remote_window = 120_000;
+                c.max_ack_delay_ms = c.max_ack_delay_ms.min(25);
+            }
+            p.knobs.insert("c15_interval".into(), crate::key_update_interval() as i64);
+            p
+        }
         "C11" => amplification(seed, index, &mut ex),
         "C06" => {
             // 2 of 3 scenarios: genuine traffic untouched (pure injection); else lossy as well
@@ -421,6 +776,7 @@ pub fn make(profile: &str, seed: u64, index: u64) -> (Params, Extras) {
                 },
             );
             let mut r = Rng::new(seed ^ 0xc06);
+            p.relabel = Some("C06".into());
             p.retry = false;
             p.net.mtu = 9200;
             for c in p.clients.iter_mut() {
@@ -584,6 +940,11 @@ pub fn nontrivial_features(profile: &str) -> &'static [&'static str] {
         "C02" => &["blocked_stream_credit", "blocked_conn_credit", "blocked_stream_count", "loss", "net_drop", "congestion_event"],
         "C02bh" => &["net_drop"],
         "C06" => &["injection"],
+        "C15" => &["key_updated"],
+        "C14" => &["error_close", "tight_stream_limit", "tight_conn_limit", "tight_stream_count", "blocked_stream_count", "stream_completed"],
+        "C04" => &["attack_delivered", "max_data", "max_stream_data", "max_streams"],
+        "C13" => &["cid_retired", "retire_prior_to", "cid_at_limit", "rebind", "path_migrated"],
+        "C10" => &["sent_at_window_limit", "cc_loss", "persistent_congestion", "mtu_changed", "congestion_event"],
         "C11" => &["net_drop", "net_dup", "server_at_amplification_limit", "retry_sent", "rebind", "loss"],
         _ => &["loss", "reordered_rx"],
     }
